@@ -185,6 +185,7 @@ def histStep (lives : List (List K)) : Op K → List (List K)
   | .reset => lives.map fun _ => []
   | .current => lives
   | .windowFrames => lives
+  | .parts => lives
 
 /-- the per-channel inputs since the last reset (or the start), after the history `ops` -/
 def hist (ch : Nat) (ops : List (Op K)) : List (List K) := ops.foldl histStep (List.replicate ch [])
